@@ -133,17 +133,12 @@ def run_r2(ctx, rule):
         return
     cwb = cw[0]
     # the guard that dominates the compaction compares pos_in_buf with a multiple of chunk_size
-    g = guards.holds(fn, cwb, lambda fa: fa[0] in ("cmp", "bool") and mentions(fa if fa[0] != "bool" else fa[1], lambda x: x == ("f", ("l", 1), "pos_in_buf")) and mentions(fa if fa[0] != "bool" else fa[1], lambda x: x == ("f", ("l", 1), "chunk_size")))
-    if not g:
-        # `let realign = a > b; if realign` : the bool is a named local
-        for s, fa in guards.facts_at(fn, cwb):
-            if fa[0] == "bool" and fa[2] is True and fa[1][0] == "l":
-                # find the single definition of that local
-                defs = sy.defs.get(fa[1][1], [])
-                if len(defs) == 1 and defs[0][0] == "stmt":
-                    e = sy.rvalue(defs[0][3])
-                    if e[0] == "bin" and e[1] in ("Gt", "Ge") and mentions(e, lambda x: x == ("f", ("l", 1), "pos_in_buf")) and mentions(e, lambda x: x == ("f", ("l", 1), "chunk_size")):
-                        g = (s, ("cmp", e[1], e[2], e[3]))
+    # (the decision may be carried to the compaction by a flag or an Option: `let realign = ..; if realign`,
+    #  `let by = if .. { Some(pos) } else { None }; if let Some(pos) = by`)
+    g = None
+    for sblk, fa in guards.decision_facts(fn, cwb):
+        if fa[0] == "cmp" and fa[1] in ("Gt", "Ge", "Lt", "Le") and mentions(fa, lambda x: x == ("f", ("l", 1), "pos_in_buf")) and mentions(fa, lambda x: x == ("f", ("l", 1), "chunk_size")):
+            g = (sblk, fa)
     rule.check(bool(g), "request_more/realign-guard", "compaction is decided by comparing pos_in_buf with a multiple of chunk_size (%s)" % (guards.show_fact(fn, g[1]) if g else "not found"), fn.loc(cwb))
     # destination 0 and window source
     t = fn.term(cwb)
